@@ -146,6 +146,179 @@ Definition buffered (nhosts : nat) (try_duration_nonzero : bool) : bool :=
 Definition attempt_body {A} (buf : bool) (body : list A) (consumed_before : nat) : list A :=
   if buf then body else skipn consumed_before body.
 
+(* ---- discrete-time model of the retry loop of Proxy.ServeHTTP (proxy.go) ----
+   Time is a natural number of ticks since `start := time.Now()`.  One loop iteration:
+     host := upstream.Select(r)                      -- any selector over the availability vector
+     host == nil            -> keepRetrying           (ENone)
+     !host.acquireConn()    -> keepRetrying           (ERefused: another request filled the host
+                                                       between Select and the increment)
+     backendErr = proxy.ServeHTTP(...)                (EAttempt, takes `adur` ticks)
+     nil -> return 0;  otherwise Fails++ (expires fail_timeout later, only if fail_timeout > 0)
+                        and keepRetrying
+   keepRetrying: `time.Since(start) >= try_duration` -> stop (502), else sleep try_interval.
+   The budget is measured ONLY there, i.e. after a failed attempt / a nil Select / a refusal.
+   The outcome of the k-th use of a host is scripted (fault sequence per host, with a default
+   for the tail).  The request body is buffered and rewound before every attempt iff
+   hosts > 1 && try_duration != 0; an unbuffered body is closed by the first attempt that runs
+   (RoundTripper contract), every later attempt that reads it gets nothing.  A scripted success
+   only succeeds if the complete body arrived (a backend does not answer a truncated upload). *)
+Inductive akind := KOk | KFailBefore | KFailAfter | KRefuse.
+Record astep := mk_astep { ak : akind; adur : N }.
+Record script := mk_script { spre : list astep; sdflt : astep }.
+Definition script_at (s : script) (k : nat) : astep := nth k (spre s) (sdflt s).
+Definition is_refuse (k : akind) : bool := match k with KRefuse => true | _ => false end.
+Definition is_ok (k : akind) : bool := match k with KOk => true | _ => false end.
+
+Record tcfg := mk_tcfg { t_n : nat; t_mf : N; t_ft : N; t_td : N; t_ti : N; t_hasbody : bool }.
+(* requiresBuffering := upstream.GetHostCount() > 1 && upstream.GetTryDuration() != 0 *)
+Definition t_buf (c : tcfg) : bool := Nat.ltb 1 (t_n c) && negb (t_td c =? 0).
+
+(* what a forward saw of the request body *)
+Inductive rxk := RxNotRead | RxFull | RxClosed | RxBad.
+Inductive tev :=
+| ENone (t : N)
+| ERefused (t : N) (i : nat)
+| EAttempt (t : N) (i : nat) (k : akind) (rx : rxk) (ok : bool) (te : N).
+Inductive tout := TAnswered (i : nat) (t : N) | T502 (t : N) | THang.
+
+Definition upd {A} (f : nat -> A) (i : nat) (v : A) : nat -> A :=
+  fun j => if Nat.eqb j i then v else f j.
+(* Fails of a host at time `now`: the failure records that have not expired yet *)
+Definition live (now : N) (l : list N) : N := N.of_nat (length (filter (fun x => now <? x) l)).
+
+Section RetryT.
+Variable S : Type.
+Variable sel : S -> list bool -> option nat * S.
+Variable c : tcfg.
+Variable unh : nat -> bool.               (* Unhealthy flag (health checker), per host *)
+Variable scr : nat -> script.             (* fault sequence per host *)
+Variable envdown : nat -> nat -> bool.    (* iteration -> host -> made unavailable by others (full / health flap) *)
+
+Definition t_avail (it : nat) (now : N) (fx : nat -> list N) : list bool :=
+  map (fun i => negb (unh i) && negb (envdown it i) && (live now (fx i) <? t_mf c)) (seq 0 (t_n c)).
+
+Definition keep (t : N) : option N := if t_td c <=? t then None else Some (t + t_ti c).
+
+Definition rx_of (k : akind) (fresh : bool) : rxk :=
+  match k with
+  | KFailBefore | KRefuse => RxNotRead
+  | _ => if negb (t_hasbody c) || t_buf c || fresh then RxFull else RxClosed
+  end.
+Definition att_ok (k : akind) (rx : rxk) : bool :=
+  match k, rx with KOk, RxFull => true | _, _ => false end.
+
+Fixpoint runT (fuel : nat) (now : N) (fx : nat -> list N) (cnt : nat -> nat) (st : S)
+         (fresh : bool) (it : nat) : tout * list tev :=
+  match fuel with
+  | O => (THang, [])
+  | Datatypes.S f =>
+    match sel st (t_avail it now fx) with
+    | (None, st') =>
+        match keep now with
+        | None => (T502 now, [ENone now])
+        | Some t' => let '(o, tr) := runT f t' fx cnt st' fresh (Datatypes.S it) in (o, ENone now :: tr)
+        end
+    | (Some i, st') =>
+        let a := script_at (scr i) (cnt i) in
+        let cnt' := upd cnt i (Datatypes.S (cnt i)) in
+        if is_refuse (ak a) then
+          match keep now with
+          | None => (T502 now, [ERefused now i])
+          | Some t' => let '(o, tr) := runT f t' fx cnt' st' fresh (Datatypes.S it) in
+                       (o, ERefused now i :: tr)
+          end
+        else
+          let rx := rx_of (ak a) fresh in
+          let ok := att_ok (ak a) rx in
+          let te := now + adur a in
+          let ev := EAttempt now i (ak a) rx ok te in
+          if ok then (TAnswered i te, [ev])
+          else
+            let fx' := if 0 <? t_ft c then upd fx i ((te + t_ft c) :: fx i) else fx in
+            match keep te with
+            | None => (T502 te, [ev])
+            | Some t' => let '(o, tr) := runT f t' fx' cnt' st' false (Datatypes.S it) in (o, ev :: tr)
+            end
+    end
+  end.
+End RetryT.
+
+(* bytes an attempt received, for a body of any type *)
+Definition rx_bytes {A} (body : list A) (rx : rxk) : option (list A) :=
+  match rx with RxNotRead => None | RxFull => Some body | RxClosed | RxBad => Some [] end.
+
+(* --- executable clauses, evaluated on a trace (the model's or the observed one) --- *)
+(* a host is only used while fewer than max_fails of its failures are unexpired *)
+Definition ev_fail_rec (ft : N) (acc : nat -> list N) (e : tev) : nat -> list N :=
+  match e with
+  | EAttempt _ i _ _ false te => if 0 <? ft then upd acc i ((te + ft) :: acc i) else acc
+  | _ => acc
+  end.
+Fixpoint skip_ok (mf ft : N) (acc : nat -> list N) (tr : list tev) : bool :=
+  match tr with
+  | [] => true
+  | e :: r =>
+      match e with
+      | EAttempt t i _ _ _ _ | ERefused t i => live t (acc i) <? mf
+      | ENone _ => true
+      end && skip_ok mf ft (ev_fail_rec ft acc e) r
+  end.
+(* every attempt that read the body read all of it *)
+Definition rx_good (rx : rxk) : bool := match rx with RxClosed | RxBad => false | _ => true end.
+Definition bodies_ok (tr : list tev) : bool :=
+  forallb (fun e => match e with EAttempt _ _ _ rx _ _ => rx_good rx | _ => true end) tr.
+Definition first_attempt_ok (tr : list tev) : bool :=
+  match filter (fun e => match e with EAttempt _ _ _ _ _ _ => true | _ => false end) tr with
+  | EAttempt _ _ _ rx _ _ :: _ => rx_good rx
+  | _ => true
+  end.
+(* the final status against the last event *)
+Definition answered_ok (n : nat) (unh : nat -> bool) (tr : list tev) (o : tout) : bool :=
+  match o with
+  | TAnswered j t =>
+      match last tr (ENone 0) with
+      | EAttempt _ i KOk RxFull true te => Nat.eqb i j && (te =? t) && Nat.ltb j n && negb (unh j)
+      | _ => false
+      end &&
+      forallb (fun e => match e with EAttempt _ _ _ _ ok _ => negb ok | _ => true end) (removelast tr)
+  | T502 t =>
+      forallb (fun e => match e with EAttempt _ _ _ _ ok _ => negb ok | _ => true end) tr &&
+      match last tr (ENone 0) with
+      | EAttempt _ _ _ _ _ te => te =? t
+      | ENone t' | ERefused t' _ => t' =? t
+      end
+  | THang => false
+  end.
+
+(* hypotheses of C05_retry_reaches_healthy, as a boolean predicate of the configuration *)
+Definition count_refuse (l : list astep) : nat := length (filter (fun a => is_refuse (ak a)) l).
+Definition all_ok (s : script) : bool := forallb (fun a => is_ok (ak a)) (spre s) && is_ok (ak (sdflt s)).
+Definition bad_host (unh : nat -> bool) (scr : nat -> script) (g i : nat) : bool :=
+  negb (Nat.eqb i g) && negb (unh i) && negb (all_ok (scr i)).
+Definition nbad (n : nat) unh scr g : nat := length (filter (bad_host unh scr g) (seq 0 n)).
+Definition nrefuse (n : nat) (scr : nat -> script) : nat :=
+  list_sum (map (fun i => count_refuse (spre (scr i))) (seq 0 n)).
+(* iterations that can be wasted before a good host must be reached: every other host that can
+   fail needs max_fails failures to be marked down, plus the scripted acquireConn refusals *)
+Definition waste (c : tcfg) unh scr g : N :=
+  t_mf c * N.of_nat (nbad (t_n c) unh scr g) + N.of_nat (nrefuse (t_n c) scr).
+Definition durs_le (n : nat) (scr : nat -> script) (dmax : N) : bool :=
+  forallb (fun i => forallb (fun a => adur a <=? dmax) (spre (scr i)) && (adur (sdflt (scr i)) <=? dmax))
+          (seq 0 n).
+Definition reach_hyp (c : tcfg) unh scr (g : nat) (dmax : N) : bool :=
+  let W := waste c unh scr g in
+  Nat.ltb g (t_n c) && negb (unh g) && all_ok (scr g)
+  && forallb (fun i => negb (is_refuse (ak (sdflt (scr i))))) (seq 0 (t_n c))
+  && durs_le (t_n c) scr dmax
+  && (1 <=? t_mf c)
+  (* failures recorded during the request do not expire before the good host is reached *)
+  && (W * (t_ti c + dmax) <? t_ft c)
+  (* the budget covers the wasted iterations: the W-th one is judged at (W-1) sleeps + W forwards *)
+  && ((W =? 0) || ((W - 1) * t_ti c + W * dmax <? t_td c)).
+Definition never_ok (n : nat) (scr : nat -> script) : bool :=
+  forallb (fun i => forallb (fun a => negb (is_ok (ak a))) (spre (scr i)) && negb (is_ok (ak (sdflt (scr i)))))
+          (seq 0 n).
+
 (* ---- cases for the correspondence check ---- *)
 Definition mk_host (u : bool) (f c m : Z) : host :=
   {| unhealthy := u; fails := f; conns := c; maxconns := m |}.
